@@ -233,6 +233,13 @@ def r_txn(ctx) -> None:
         for c in risky:
             prior = [m for m in muts if m is not c and graph.reaches(m, c, normal_only=True, no_back=True)]
             if not prior:
+                # ... or inside the statement itself: a committing call evaluated as an argument of the call that may refuse
+                # (``self.republish(Subscription(subscriber, port))``: the registration happens before republish runs)
+                hc = cfg.header_calls(c)
+                nested = [(m, r) for r in hc if core.call_tail(r) in mr for m in hc if m is not r and core.call_tail(m) in COMMITTING and any(m is x for a in list(r.args) + [k.value for k in r.keywords] for x in ast.walk(a))]
+                if nested:
+                    prior = [c]
+            if not prior:
                 continue
             n += 1
             tr = next((a for a in core.ancestors(c) if isinstance(a, ast.Try) and any(c is x for b in a.body for x in ast.walk(b))), None)
